@@ -75,6 +75,21 @@ func NewRun(prop, tier, level string) *Run {
 			seed = v
 		}
 	}
+	// watchdog: a check never waits for ever (a call into the code under test that does not return and is not under a
+	// timeout of its own ends the run with "no verdict", not with a silent hang)
+	limit := 25 * time.Minute
+	if tier == "thorough" {
+		limit = 5 * time.Hour
+	}
+	if m := os.Getenv("VERIF_WATCHDOG_MIN"); m != "" {
+		if v, err := strconv.Atoi(m); err == nil && v > 0 {
+			limit = time.Duration(v) * time.Minute
+		}
+	}
+	go func() {
+		time.Sleep(limit)
+		Infra("the %s %s check did not finish within %v (a call into the code under test that never returns?)", prop, tier, limit)
+	}()
 	return &Run{Prop: prop, Tier: tier, Seed: seed, Level: level, start: time.Now(),
 		distinct: map[string]struct{}{}, extra: map[string]interface{}{}, seenViol: map[string]bool{}}
 }
